@@ -3,9 +3,9 @@ import json, os
 VERIF = os.path.dirname(os.path.dirname(os.path.abspath(__file__)))
 props = [json.loads(l) for l in open(os.path.join(VERIF, 'properties.jsonl'))]
 
-TRACE = ['C01', 'C02', 'C03', 'C04', 'C05', 'C06', 'C07', 'C08', 'C09', 'C10', 'C11', 'C13', 'C14', 'C15', 'C16', 'C18']
+TRACE = ['C01', 'C02', 'C03', 'C04', 'C05', 'C06', 'C07', 'C08', 'C09', 'C10', 'C11', 'C13', 'C14', 'C15', 'C16', 'C17', 'C18']
 SEQ = ['C12', 'C19', 'C20']     # sequential / timed specs with exact replay
-WALP = []         # C17
+WALP = []
 NOT_YET = {}
 
 design_ref = {p['id']: 'DESIGN.md section 6, ' + p['id'] for p in props}
